@@ -1441,10 +1441,26 @@ Plan generate(const std::string& mode, uint64_t seed, uint64_t run) {
         }
         block.push_back(op);
       }
-      for (size_t k = 0; k < reps && p.ops.size() < total; k++)
+      bool tooBig = false;
+      for (size_t k = 0; k < reps && p.ops.size() < total && !tooBig; k++)
         for (auto& op : block) {
           sim.step(op, p.ops.size());
           p.ops.push_back(op);
+          // a block that copies a document into itself doubles it every time round: keep the documents small
+          // (the generator's model is the measure; 3000 values is far beyond what the small builds hold anyway)
+          size_t nodes = 0;
+          for (int d = 0; d < sim.ndocs(); d++)
+            visitc(sim.model(d), [&](const Val&) { nodes++; });
+          if (nodes > 3000) {
+            for (int d = 0; d < sim.ndocs(); d++) {
+              Op clr = mkop("doc");
+              clr.set("what", "clear").setu("d", uint64_t(d)).setu("s", uint64_t(d)).set("via", 0);
+              sim.step(clr, p.ops.size());
+              p.ops.push_back(clr);
+            }
+            tooBig = true;
+            break;
+          }
         }
     }
     return p;
